@@ -244,6 +244,8 @@ def gen_sim(rng):
 
 def gen_live(rng):
     socks = _gen_sockets(rng)
+    while len(set(s["name"].lower() for s in socks)) < len(socks):      # the live part is about inheritance
+        socks = _gen_sockets(rng)
     for s in socks:
         s["reuseport"] = False
     ws = []
@@ -304,6 +306,7 @@ class _Env(object):
         self.nfile = 0
         self.objects = []        # everything with a .close() that owns a descriptor >= base
         self.raw = []            # descriptors opened with os.open by the harness itself
+        self.leftover = None
 
     def specs(self):
         """config dicts for CircusSocket.load_from_config (before the filler: reserving a port opens a socket)"""
@@ -339,8 +342,14 @@ class _Env(object):
             except OSError:
                 pass
         if top >= 0 and not again:
-            raise Infra("C07 harness: descriptor %d of the check process is open at or above BASE" % top)
-        if again:
+            # something of the check process lives up there (never seen with the cases alone): work above it
+            try:
+                self.leftover = "%d -> %s" % (top, os.readlink("/proc/self/fd/%d" % top))
+            except OSError:
+                self.leftover = "%d" % top
+            if top >= BASE + 3 * SPAN:
+                raise Infra("C07 harness: descriptor %s of the check process is open far above BASE" % self.leftover)
+        if again or top >= 0:
             self.base = max(BASE, top + 1)
         null = os.open(os.devnull, os.O_RDONLY)
         if null >= self.base:
@@ -669,7 +678,8 @@ def _impl_hist(case):
             else:
                 raise ValueError("unknown op %r" % (op,))
             steps.append(snap(res, n, wis))
-        return {"steps": steps, "base": env.base}
+        _RUN[id(case)] = env.base
+        return {"steps": steps, "base": env.base, "leftover": env.leftover}
     finally:
         cp.Popen = saved
         env.close()
@@ -922,9 +932,9 @@ _WARM = []
 def _warm():
     """process-wide singletons that keep descriptors for ever (the zmq context the Arbiter uses) are created
     before the first case, so that their descriptors lie below BASE"""
-    if _WARM:
+    if _WARM and _WARM[-1] == os.getpid():
         return
-    _WARM.append(1)
+    _WARM.append(os.getpid())       # again in a forked worker of the check: pyzmq makes a new context there
     try:
         import zmq
         import circus.arbiter  # noqa
@@ -1039,12 +1049,13 @@ def _line(case, watchers, ops, base):
 
 
 _SIM_CACHE = {}
+_RUN = {}       # id(case) -> base of the descriptor window the implementation run used
 
 
 def model_line(case):
     k = case["kind"]
     if k == "hist":
-        return _line(case, case["watchers"], case["ops"], case.get("base", BASE))
+        return _line(case, case["watchers"], case["ops"], _RUN.get(id(case), BASE))
     if k == "sim":
         # trace validation: the model is driven with the spawns the real arbiter was seen to perform
         tr, base = _SIM_CACHE.get(id(case), (None, None))
@@ -1399,8 +1410,10 @@ def oracle(case, obs):
                 sname, sfd, sino, saddr = rep["socks"][idx[0]]
                 e = child.get(int(num)) if re.match(r"^\d+$", num) else None
                 if int(num) != sfd if re.match(r"^-?\d+$", num) else True:
-                    fails.append(_fail("C07:wrong-descriptor-number", "live spawn %d: %r -> %r, socket has %d"
-                                       % (n, name, num, sfd)))
+                    lower = [s["name"].lower() for s in case["sockets"]]
+                    fails.append(_fail("C07:socket-name-case-shadow" if len(set(lower)) < len(lower)
+                                       else "C07:wrong-descriptor-number",
+                                       "live spawn %d: %r -> %r, socket has %d" % (n, name, num, sfd)))
                 elif e is None or not e["sock"] or e["ino"] != sino or not e.get("listening") or e.get("name") != saddr:
                     fails.append(_fail("C07:child-does-not-get-the-startup-socket",
                                        "live spawn %d: fd %s in the child is %r, the daemon's socket is %r"
@@ -1459,6 +1472,8 @@ def stats(cases, impl):
             else:
                 out["spawns"] += len(o["reports"])
             continue
+        if o.get("leftover"):
+            out.setdefault("window_moved_above", []).append(o["leftover"])
         if c["kind"] == "hist":
             for op in c["ops"]:
                 out["ops"][op[0]] = out["ops"].get(op[0], 0) + 1
